@@ -129,6 +129,10 @@ def run(prog: Program, chk: Check) -> None:
     for c in walk_local(u.node):
         if isinstance(c, ast.Call) and method_call(c) == ("self._dynamics", "add"):
             t = c.args[0]
+            if isinstance(t, ast.Name):
+                dt_ = du.unique_value(du.node_of(c), t.id)
+                if dt_ is not None and dt_.value is not None and not dt_.sel:
+                    t = dt_.value
             if isinstance(t, ast.Call) and method_call(t) == ("self", "_time"):
                 adds.append((c, t.args[0]))
     found_loop_label = False
@@ -230,7 +234,8 @@ def k4(prog: Program, chk: Check) -> None:
             if dotted(x) == "self._dt":
                 return Poly.sym("DT")
             return None
-        f = eval_form(pc[0].args[0], leaf)
+        du_k4 = DefUse(u, CFG(u.node, exc_edges=False))
+        f = form_at(du_k4, du_k4.node_of(pc[0]), pc[0].args[0], leaf)
         ok = f == -(Poly.sym("I") * Poly.sym("DT"))
     chk.add("K4", u, f"get_unitary_propagators({norm(pc[0].args[0]) if pc else '?'}, ..)", ok,
             "imaginary time step -i*dt" if ok else "the free propagator is not exp(-H dt/2)")
